@@ -35,6 +35,15 @@ package govern_token
 //@   let S = ctx.Initiator()
 //@   let R = str(ctx.Args()["to"])
 //@   let A = parseDec(str(ctx.Args()["amount"]))
+//@   witness SenderTotal: gtTotal(gtVal(ctx, S))
+//@   witness SenderOrdinary: gtLock(gtVal(ctx, S), "ordinary")
+//@   witness SenderTdpos: gtLock(gtVal(ctx, S), "tdpos")
+//@   witness ReceiverExists: gtHas(ctx, R)
+//@   witness ReceiverTotal: gtTotal(gtVal(ctx, R))
+//@   witness ReceiverOrdinary: gtLock(gtVal(ctx, R), "ordinary")
+//@   witness ReceiverTdpos: gtLock(gtVal(ctx, R), "tdpos")
+//@   witness Amount: A
+//@   witness SameAccount: S == R
 //@   ensures covered_by_unlocked_balance: result1 == nil ==> A >= 0 && gtOldHas(ctx, S) && gtTotal(gtOldVal(ctx, S)) - gtLock(gtOldVal(ctx, S), "ordinary") >= A && gtTotal(gtOldVal(ctx, S)) - gtLock(gtOldVal(ctx, S), "tdpos") >= A
 //@   ensures sender_debited: result1 == nil && S != R ==> gtHas(ctx, S) && gtTotal(gtVal(ctx, S)) == gtTotal(gtOldVal(ctx, S)) - A
 //@   ensures receiver_credited: result1 == nil && S != R ==> gtHas(ctx, R) && gtTotal(gtVal(ctx, R)) == (gtOldHas(ctx, R) ? gtTotal(gtOldVal(ctx, R)) : 0) + A
